@@ -92,7 +92,7 @@ impl Prop for C10 {
         "C10"
     }
     fn rule(&self) -> String {
-        "generated: sequences of 1-6 decode_packet / get_length / process_packet calls on one validly configured context (7-bit address, 0-30 message types, 0-16 (rarely 255 or 256) vendor sets of format 0/1, response buffer 64-300 bytes), the sequence being applied once or - three cases in a hundred - 2-8 or 256-400 times over, and one case in eight thousand (then at most two calls) 65 600-66 000 times over (long histories); accessor calls on either half, UUID updates and encodes are interleaved; inputs of length 0-640: frame-grammar packets (every command code, completion code, operation and selector value), reference-encoded valid packets, their one-byte mutations and truncations, control requests with the right data length for every command, random bytes. enumerated (both tiers): every truncation point of 24 reference-encoded packets (as is and with the PEC repaired) and every value 0..255 of every byte position of those packets (PEC repaired), through all three entry points. oracle: catch_unwind around each call, built with overflow checks and debug assertions. non-trivial = the sequence contains an input that passes transport-header and type validation, or a truncation of a valid packet; distinct by hash".into()
+        "generated: sequences of 1-6 decode_packet / get_length / process_packet calls on one validly configured context (7-bit address, 0-30 message types, 0-16 (rarely 255 or 256) vendor sets of format 0/1, response buffer 64-300 bytes), the sequence being applied once or - three cases in a hundred - 2-8 or 256-400 times over, and one case in eight thousand (then at most two calls) 65 600-66 000 times over (long histories); accessor calls on either half, UUID updates and encodes are interleaved; inputs of length 0-640: frame-grammar packets (every command code, completion code, operation and selector value), reference-encoded valid packets, their one-byte mutations and truncations, packets whose byte count announces a PEC-consistent frame ending inside them, control requests with the right data length for every command, random bytes. enumerated (both tiers): every truncation point of 24 reference-encoded packets (as is and with the PEC repaired) and every value 0..255 of every byte position of those packets (PEC repaired), and every byte count 0..255 announced by those packets with the byte at the announced PEC position made consistent, through all three entry points. oracle: catch_unwind around each call, built with overflow checks and debug assertions. non-trivial = the sequence contains an input that passes transport-header and type validation, or a truncation of a valid packet; distinct by hash".into()
     }
     fn assumptions(&self) -> Vec<String> {
         vec!["not demanded: behaviour with invalid configuration (vendor format not 0/1, more than 30 message types, response buffer shorter than 64 bytes); a context without any vendor ID set is treated as valid".into()]
@@ -181,6 +181,17 @@ impl Prop for C10 {
                 }
             }
         }
+        // every byte count 0..255 announced by each packet, with the byte at the announced
+        // PEC position consistent with what precedes it (a complete frame inside the slice)
+        for p in base_packets() {
+            for k in 0..=255u8 {
+                if k as usize + 4 == p.len() {
+                    continue;
+                }
+                emit(crate::gen::announce_inner_frame(p.clone(), k, false));
+                emit(crate::gen::announce_inner_frame(p.clone(), k, true));
+            }
+        }
         // two-step histories: an assignment of every EID value (including the
         // reserved 0x00 / 0xFF, which the bus may well send) followed by each query
         {
@@ -210,7 +221,7 @@ impl Prop for C10 {
         });
     }
     fn enumerated_desc(&self, tier: Tier) -> Option<String> {
-        Some(format!("for each of 24 reference-encoded packets (all message types, requests and responses): every truncation point 0..len (as is and with the PEC repaired), and every other value of every byte position before the PEC (PEC repaired), each through get_length, decode_packet and process_packet; two-step histories (Set Endpoint ID with operation Set/Force and every EID byte 0..255, then each of 8 requests); plus process_packet on control messages with {} control bytes x all 256 command codes x completion codes x every data length 0..{}", if tier == Tier::Thorough { "all 256" } else { "10" }, if tier == Tier::Thorough { 20 } else { 18 }))
+        Some(format!("for each of 24 reference-encoded packets (all message types, requests and responses): every truncation point 0..len (as is and with the PEC repaired), every other value of every byte position before the PEC (PEC repaired), and every announced byte count 0..255 with a consistent byte at the announced PEC position (final PEC as is and repaired), each through get_length, decode_packet and process_packet; two-step histories (Set Endpoint ID with operation Set/Force and every EID byte 0..255, then each of 8 requests); plus process_packet on control messages with {} control bytes x all 256 command codes x completion codes x every data length 0..{}", if tier == Tier::Thorough { "all 256" } else { "10" }, if tier == Tier::Thorough { 20 } else { 18 }))
     }
     fn run(&self, case: &Case) -> CaseResult {
         let mut r = CaseResult::default();
